@@ -615,11 +615,12 @@ func (c *Conn) send(ctx context.Context, f func(context.Context) error) error {
 		if err := c.state.WaitUntilOrClosed(ctx, connStatusConnected); err != nil {
 			return err
 		}
+		seen := c.state.Outages()
 		if err := f(ctx); err != nil {
 			if !errors.Is(err, errors.ErrConnectionClosed) {
 				return err
 			}
-			if c.state.CompareAndSwapNot(connStatusClosed, connStatusReconnecting) {
+			if c.state.MarkOutageSince(seen) {
 				continue
 			}
 			return errors.ErrConnectionClosed
